@@ -398,7 +398,7 @@ def mapH (a : Slice) (k : Bytes) : Prog Slice := collect a (mapStep k) () none
 /-- `seen(item)` of `uniqFilter`: the loop state is the list of the keys of `result` (`ArrF.uniqOn`) -/
 def uniqStep (seen : List String) (x : GoVal) : Res Cause (List String × Option GoVal) :=
   if ArrF.hasPtr x then .unmodelled "uniq: pointer identity"
-  else if seen.contains x.enc then .ok (seen, none) else .ok (x.enc :: seen, some x)
+  else if seen.contains (MapOrder.canonEnc x) then .ok (seen, none) else .ok (MapOrder.canonEnc x :: seen, some x)
 
 /-- `for _, item := range a { if !seen(item) { result = append(result, item) } }` -/
 def uniqH (a : Slice) : Prog Slice := collect a uniqStep [] none
